@@ -27,6 +27,7 @@ const POOL: &[&str] = &[
     // same rule under another tag: both land in one bucket and both match the same requests
     "@@advice$tag=a",
     "adv$important,tag=b",
+    "foo*bar$tag=b",
 ];
 const TAGS: [&str; 3] = ["a", "b", "c"];
 
@@ -365,7 +366,7 @@ fn check(ctx: &Ctx) -> i32 {
     }
     ctx.finish(
         "model_checking",
-        "BX: all 2048 subsets of the 11-rule pool x optimise on/off x all 8 tag sets x a 30-query battery (network + CSP), compared with an engine built from the tag-stripped sublist; HX: on 4 representative lists every operation sequence of length <= d over 28 operations (use/enable/disable of every subset of {a,b,c}; deserialize of the same list serialised under every subset of {a,b}), each on a fresh real engine; tag_exists checked against the set model after every step and the battery after the last; non-trivial = a tagged rule is present / the final tag set is non-empty; states = engines built + model states, transitions = operations and queries executed",
+        "BX: all 4096 subsets of the 12-rule pool x optimise on/off x all 8 tag sets x a 30-query battery (network + CSP), compared with an engine built from the tag-stripped sublist; HX: on 4 representative lists every operation sequence of length <= d over 28 operations (use/enable/disable of every subset of {a,b,c}; deserialize of the same list serialised under every subset of {a,b}), each on a fresh real engine; tag_exists checked against the set model after every step and the battery after the last; non-trivial = a tagged rule is present / the final tag set is non-empty; states = engines built + model states, transitions = operations and queries executed",
         &["the tag-stripped reference engine is built by the same crate (differential); tag combined with redirect / removeparam / generichide is outside the property's list of categories and not generated"],
     )
 }
